@@ -383,6 +383,13 @@ const unsigned char *ares_buf_tag_fetch(const ares_buf_t *buf, size_t *len)
   }
 
   *len = buf->offset - buf->tag_offset;
+
+  /* A buffer that never had anything written to it has no data pointer yet.
+   * The tag is valid, there just are zero bytes behind it */
+  if (buf->data == NULL) {
+    return (const unsigned char *)"";
+  }
+
   return buf->data + buf->tag_offset;
 }
 
